@@ -74,6 +74,13 @@ M = [
     ("C07", "lik-scale", "black_it/loss_functions/likelihood.py", "            1.0\n            / d\n            * np.sum(", "            1.0\n            / max(d, 2)\n            * np.sum("),
     ("C07", "lik-silverman", "black_it/loss_functions/likelihood.py", "return ((n * (d + 2)) / 4) ** (-1 / (d + 4))", "return ((n * (d + 2)) / 4) ** (-1 / (d + 5))"),
     ("C07", "base-filter-real-too", "black_it/loss_functions/base.py", "loss += self.compute_loss_1d(filtered_data[i], real_data[:, i]) * weights[i]", "loss += self.compute_loss_1d(filtered_data[i], real_data[:, i] if filters[i] is None else filters[i](real_data[:, i])) * weights[i]"),
+    ("C20", "hp-stencil", "black_it/utils/time_series.py", "data = np.repeat([[1.0], [-2.0], [1.0]], nobs, axis=1)", "data = np.repeat([[1.0], [-2.0], [1.0]], nobs, axis=1)\n    data[2, -1] = 2.0"),
+    ("C20", "hp-cycle-sign", "black_it/utils/time_series.py", "    cycle = time_series - trend", "    cycle = trend - time_series"),
+    ("C20", "hp-lambda-twice", "black_it/utils/time_series.py", "I + lamb * K.T.dot(K), time_series,", "I + lamb * K.T.dot(K) + (lamb if nobs == 7 else 0) * I, time_series,"),
+    ("C20", "wrapper-160", "black_it/utils/time_series.py", "    return hp_filter(time_series, lamb=1600)[0]", "    return hp_filter(time_series, lamb=160)[0]"),
+    ("C20", "loghp-trend-of-raw", "black_it/utils/time_series.py", "return np.log(time_series) - hp_filter(np.log(time_series), lamb=1600)[1]", "return np.log(time_series) - hp_filter(np.log(time_series), lamb=1600)[0]"),
+    ("C20", "difflog-prepend0", "black_it/utils/time_series.py", "diff_log = np.diff(log, prepend=log[0])", "diff_log = np.diff(log, prepend=0)"),
+    ("C20", "difflog-mean-of-log", "black_it/utils/time_series.py", "return diff_log - np.mean(diff_log)", "return diff_log - np.mean(diff_log[1:])"),
     ("C15", "no-tolerance", "black_it/search_space.py", "parameters_bounds[1][i] + 0.0000001,", "parameters_bounds[1][i],"),
 ]
 
